@@ -174,7 +174,7 @@ func runC03(c *Ctx) {
 	}
 	runC03Long(c)
 	c.Meta(map[string]interface{}{
-		"rule":    "(long indexes: every insertion order of 5 (thorough 7) distinct keys held by a unique string and a unique integer field; after every insertion from the 3rd on, after Close and Open, after moving each object to a new key and after each deletion from the middle: every key of the domain offered by a new object through either field is refused iff a stored object holds it, every object can be re-saved with its own values.) BFS over histories specialised to key collisions: two unique fields (string with upper: case variants collide; int64 incl. two values differing only beyond 2^53), in three more configurations a third one (uint64 incl. 2^53+1 and the maximum; float64 incl. -0 and the extremes; time.Time incl. two zones), 5 key classes, updates onto foreign/own/released keys, batches with internal conflicts, reopen/abandon anywhere. Each call's accept/reject decision is compared with the reference (IsUnique iff a different stored object holds the canonical value) in both directions; invariant on All() in every state. Non-trivial = histories ending in a write.",
+		"rule":    "(long indexes: every insertion order of 5 (thorough 7) distinct keys held by a unique string (in one configuration 300-byte strings differing in their last bytes) and a unique integer field; after every insertion from the 3rd on, after Close and Open, after moving each object to a new key and after each deletion from the middle: every key of the domain offered by a new object through either field is refused iff a stored object holds it, every object can be re-saved with its own values.) BFS over histories specialised to key collisions: two unique fields (string with upper: case variants collide; int64 incl. two values differing only beyond 2^53), in three more configurations a third one (uint64 incl. 2^53+1 and the maximum; float64 incl. -0 and the extremes; time.Time incl. two zones), 5 key classes, updates onto foreign/own/released keys, batches with internal conflicts, reopen/abandon anywhere. Each call's accept/reject decision is compared with the reference (IsUnique iff a different stored object holds the canonical value) in both directions; invariant on All() in every state. Non-trivial = histories ending in a write.",
 		"configs": cfgs, "depth": depth,
 	})
 }
